@@ -56,6 +56,8 @@ pub struct Recorder {
     pub zslots: Vec<usize>,
     /// the program has systems with static system-data types (the harness provides their resources)
     pub has_stat: bool,
+    /// share of the ordinary systems that keep the library's provided setup / dispose
+    pub nohook_share: f64,
     /// a pool attached to the top-level builder BEFORE anything is registered (otherwise the caller attaches one at the end)
     #[cfg(feature = "parallel")]
     pub early_pool: Option<std::sync::Arc<rayon::ThreadPool>>,
@@ -149,6 +151,7 @@ impl Recorder {
             zst_share: ZST.with(|n| n.get()),
             zslots: Vec::new(),
             has_stat: false,
+            nohook_share: NOHOOK.with(|n| n.get()),
             #[cfg(feature = "parallel")]
             early_pool: None,
             toggle_counter: 0,
@@ -469,6 +472,7 @@ impl Recorder {
                     let rdeps: Vec<String> = self.variant_deps(deps, bidx);
                     let before = norm(bidx, b.verif_layout());
                     let zslot = self.zslot(gid, &acc, *t);
+                    let mut hooks = true;
                     let out = if let Some(k) = zslot {
                         crate::with_zsys!(k, (), |z| catch_unwind(AssertUnwindSafe(|| {
                             let d: Vec<&str> = rdeps.iter().map(|s| s.as_str()).collect();
@@ -483,13 +487,22 @@ impl Recorder {
                             tl: false,
                             mk: PhantomData,
                         };
-                        catch_unwind(AssertUnwindSafe(|| {
-                            let d: Vec<&str> = rdeps.iter().map(|s| s.as_str()).collect();
-                            b.add(sys, &rname, &d)
-                        }))
+                        if self.nohook_share > 0.0 && self.rng.gen_bool(self.nohook_share) {
+                            hooks = false;
+                            let sys = HNoHook(sys);
+                            catch_unwind(AssertUnwindSafe(|| {
+                                let d: Vec<&str> = rdeps.iter().map(|s| s.as_str()).collect();
+                                b.add(sys, &rname, &d)
+                            }))
+                        } else {
+                            catch_unwind(AssertUnwindSafe(|| {
+                                let d: Vec<&str> = rdeps.iter().map(|s| s.as_str()).collect();
+                                b.add(sys, &rname, &d)
+                            }))
+                        }
                     };
                     let after = norm(bidx, b.verif_layout());
-                    self.log_add("add", bidx, gid, r, w, &rname, &rdeps, *t, out, &before, &after, json!({}));
+                    self.log_add("add", bidx, gid, r, w, &rname, &rdeps, *t, out, &before, &after, if hooks { json!({}) } else { json!({"hooks": false}) });
                     let last = self.sys.last_mut().unwrap();
                     last.kind = "plain";
                 }
@@ -747,6 +760,15 @@ impl<'a> shred::System<'a> for NoiseN {
 
 thread_local! {
     static ZST: std::cell::Cell<f64> = std::cell::Cell::new(0.0);
+}
+
+thread_local! {
+    static NOHOOK: std::cell::Cell<f64> = std::cell::Cell::new(0.0);
+}
+
+/// Share of the ordinary systems of the following programs (this thread) that keep the provided setup / dispose.
+pub fn set_nohook(p: f64) {
+    NOHOOK.with(|n| n.set(p));
 }
 
 /// Share of the systems of the following programs (this thread) that are registered as zero-sized types.
